@@ -635,7 +635,11 @@ async fn router(sh: Arc<Shared>, r: RouterCfg) {
     'outer: while steps_left > 0 && !sh.failed() {
         let (sock, conn) = connect(&sh);
         ctx.ev(31, r.id as u64, || format!("router {} connects (state {:?}, v{})", r.id, state, initial_version));
-        let mut client = Client::with_initial_version(initial_version, sock, target.clone(), state.map(mk_state));
+        let mut client = if initial_version == 2 && ctx.chance(1, 2) {
+            Client::new(sock, target.clone(), state.map(mk_state))
+        } else {
+            Client::with_initial_version(initial_version, sock, target.clone(), state.map(mk_state))
+        };
         let r_eff = RouterCfg { id: r.id, initial_version, init: r.init, steps: 0 };
         while steps_left > 0 && !sh.failed() {
             steps_left -= 1;
@@ -653,6 +657,12 @@ async fn router(sh: Arc<Shared>, r: RouterCfg) {
             let res = if forced {
                 sh.bump("probe_forced_reset_via_public_api");
                 match client.reset().await {
+                    Ok(update) => client.apply(update).await,
+                    Err(e) => Err(e),
+                }
+            } else if ctx.chance(1, 8) {
+                // the public update() + apply() pair instead of step()
+                match client.update().await {
                     Ok(update) => client.apply(update).await,
                     Err(e) => Err(e),
                 }
